@@ -24,12 +24,43 @@ def setconf_vector(args, keysok, ctx="idle"):
         p.set_conf("Nickname", "earlier").addErrback(lambda f: None)
         assert tr.value() == b"GETINFO version\r\n", tr.value()
         tr.clear()
+    twin_queued = False
+    if ctx == "dup":
+        # the connection is busy, and the very same call (another part of the application making the same change) is
+        # already waiting in the queue, followed by a different one; the call under test still gets a line of its own
+        p.queue_command("GETINFO version").addErrback(lambda f: None)
+        try:
+            p.set_conf(*args).addErrback(lambda f: None)
+            twin_queued = True
+        except Exception:
+            pass
+        p.set_conf("Nickname", "between").addErrback(lambda f: None)
+        assert tr.value() == b"GETINFO version\r\n", tr.value()
+        tr.clear()
     try:
         d = p.set_conf(*args)
         d.addBoth(fired.append)
     except Exception:
         err = True
     extra = b""
+    if ctx == "dup":
+        extra = tr.value()      # nothing may be written while a reply is outstanding
+        tr.clear()
+        lines = []
+        p.dataReceived(b"250-version=0.4.8.0\r\n250 OK\r\n")
+        while tr.value() and len(lines) < 6:
+            lines.append(tr.value())
+            tr.clear()
+            p.dataReceived(b"250 OK\r\n")
+        # expected: [the identical earlier call's line,] the different call's line [, this call's line]
+        k = lines.index(b"SETCONF Nickname=between\r\n") if b"SETCONF Nickname=between\r\n" in lines else -1
+        if k < 0:
+            extra += b"".join(lines) + b"SETCONF ?the-call-in-between-was-lost\r\n"
+        else:
+            before, after = lines[:k], lines[k + 1:]
+            if len(before) > 1 or len(after) > 1 or (before and after and before[0] != after[0]):
+                extra += b"SETCONF ?lines-not-one-per-call\r\n"
+            extra += b"".join(after)
     if ctx == "repeat":
         # the same call was made before on this connection (and answered, if it was written at all):
         # what is recorded is the second call, which must fare exactly like a first one
@@ -133,6 +164,13 @@ def _noise_raw(proto, noise, when):
     if shape == "split":
         # a multi-line event is half received when the command is issued; the rest arrives before the reply
         proto.dataReceived(SPLIT_EVENT[0 if when == "before" else 1])
+        return
+    if shape == "incremental":
+        # an incremental request (as TorState makes for ns/all) was made and completely answered just before
+        if when == "before":
+            got = []
+            proto.get_info_incremental("ns/all", got.append).addErrback(lambda f: None)
+            proto.dataReceived(b"250+ns/all=\r\nr relay AAAA BBBB 2030-01-01 00:00:00 10.0.0.1 9001 0\r\ns Fast Running\r\n.\r\n250 OK\r\n")
         return
     if shape == "cancel":
         if when == "before":
